@@ -68,6 +68,16 @@ theorem C17_child_cycle_is_compilation_error (names ord : List String) (conns : 
     ∃ m, sortedChildrenOrder names ord conns = .error (.compilation m) :=
   sortedChildrenOrder_cycle names ord conns a hnd hall hc
 
+/-- … and the ordering of the children fails ONLY because of such a cycle: consistent (acyclic) wiring is never rejected here -/
+theorem C17_ordering_fails_only_on_cycles (names ord : List String) (conns : List (Endpoint × Endpoint)) (e : Err)
+    (h : sortedChildrenOrder names ord conns = .error e) : ∃ a, Graph.Before (childGraph names conns) a a := by
+  rw [sortedChildrenOrder_unfold] at h
+  split at h
+  · cases h
+  · cases ho : Graph.staticOrder (childGraph names conns) with
+    | none => exact Graph.cycle_of_staticOrder_none _ ho
+    | some o => rw [ho] at h; cases h
+
 -- non-vacuity: a.out -> b.in, b.out -> a.in is such a cycle
 example : Graph.Before (childGraph ["a", "b"] [(⟨some "a", "out"⟩, ⟨some "b", "in"⟩), (⟨some "b", "out"⟩, ⟨some "a", "in"⟩)]) "a" "a" :=
   Graph.Before.trans (b := "b") (Graph.Before.edge (by decide)) (Graph.Before.edge (by decide))
